@@ -357,7 +357,11 @@ def coreDistance (A B : Core) (planar : Bool) : Option Rat :=
     let m := xs.foldl minQ x
     let finish (d : Rat) : Option Rat := some (maxQ 0 (d - A.radius - B.radius))
     if m = 0 then finish 0
-    else if planar || (A.edges.isEmpty || B.edges.isEmpty) || satSeparated A B then finish (sqrtQ m)
+    -- cores of dimension ≤ 1 (points, segments) cannot pierce each other: the feature minimum is the distance
+    else if planar || (A.normals.isEmpty && B.normals.isEmpty) || (A.edges.isEmpty || B.edges.isEmpty)
+        || satSeparated A B then finish (sqrtQ m)
+    -- a full-dimensional core (cuboid) makes the axis set complete: no separating axis ⇒ the cores overlap
+    else if A.normals.length == 3 || B.normals.length == 3 then finish 0
     else none
 
 /-- true distance, computed independently of the implementation: half-space vs bounded shape (closed form through
@@ -414,6 +418,20 @@ def knowledge (A B : Placed) (hints : List Res) (extraPts : List Q3) (planar : B
     hints.flatMap (fun h => match h with | .within w1 w2 => [w1, w2, V3.center w1 w2] | _ => [])
   if overlapWitness A B cands tol then mergeBounds b1 ⟨none, some 0⟩ else b1
 
+/-- two plain segments in the plane `z = 0` whose supporting lines cross at parameters well inside both (`[1/100, 99/100]`) -/
+def robustCrossing (A B : Placed) : Bool :=
+  match A.sh, B.sh with
+  | .segment a b, .segment c d =>
+      let p1 := A.pose.act a; let q1 := A.pose.act b; let p2 := B.pose.act c; let q2 := B.pose.act d
+      let d1 := q1.sub p1; let d2 := q2.sub p2; let r := p2.sub p1
+      let den := d1.x * d2.y - d1.y * d2.x
+      if den = 0 then false else
+        let s := (r.x * d2.y - r.y * d2.x) / den
+        let t := (r.x * d1.y - r.y * d1.x) / den
+        let lo : Rat := 1 / 100; let hi : Rat := 99 / 100
+        lo ≤ s && s ≤ hi && lo ≤ t && t ≤ hi
+  | _, _ => false
+
 /-- verdict on a `closest_points` answer -/
 def judgeCP (A B : Placed) (maxDist : Rat) (res : Res) (hints : List Res) (extraPts : List Q3) (planar : Bool := false) : String :=
   let tol := tolFor A B
@@ -427,6 +445,9 @@ def judgeCP (A B : Placed) (maxDist : Rat) (res : Res) (hints : List Res) (extra
       if !(B.mem w2 tol) then s!"fail {route} witness2-not-in-shape2" else
       let gap := normQ (w2.sub w1)
       if gap > maxDist + tol then s!"fail {route} within-margin-but-gap-exceeds-max_dist gap={showQ gap}" else
+      -- coincident witnesses are fine when the shapes merely touch; but two planar segments that cross well inside
+      -- each other overlap robustly and the answer should have been `Intersecting`
+      if gap ≤ 2 * tol && planar && robustCrossing A B then s!"fail {route} within-margin-but-overlapping" else
       match exactDistance A B planar with
       | some D => if gap ≤ D + 2 * tol then "pass" else s!"fail {route} not-closest gap={showQ gap} true={showQ D}"
       | none =>
